@@ -5,7 +5,7 @@ use super::*;
 use crate::vhelp::*;
 use crate::vspec as sp;
 
-// @ob id=O16.1 props=C16,C03,C01 tier=quick kind=proof fn="between" desc="for all 64x64 pairs and every test square t: t in between(a,b) <=> t lies strictly between a and b on a common rank/file/diagonal (definitional), and between(a,b) equals the closed form used as stand-in; the unchecked table index is in bounds"
+// @ob id=O16.1 props=C16 also=C03,C01 tier=quick kind=proof fn="between" desc="for all 64x64 pairs and every test square t: t in between(a,b) <=> t lies strictly between a and b on a common rank/file/diagonal (definitional), and between(a,b) equals the closed form used as stand-in; the unchecked table index is in bounds"
 #[kani::proof]
 fn c16_between() {
     let (a, b, t) = (any_sq_u8(), any_sq_u8(), any_sq_u8());
@@ -14,7 +14,7 @@ fn c16_between() {
     assert!(r == sp::s_between(a, b));
 }
 
-// @ob id=O16.2 props=C16,C01 tier=quick kind=proof fn="line" desc="for all pairs and every t: t in line(a,b) <=> a != b aligned and t on the full line through them; equals the closed form"
+// @ob id=O16.2 props=C16 also=C01 tier=quick kind=proof fn="line" desc="for all pairs and every t: t in line(a,b) <=> a != b aligned and t on the full line through them; equals the closed form"
 #[kani::proof]
 fn c16_line() {
     let (a, b, t) = (any_sq_u8(), any_sq_u8(), any_sq_u8());
@@ -23,7 +23,7 @@ fn c16_line() {
     assert!(r == sp::s_line(a, b));
 }
 
-// @ob id=O16.3 props=C16,C03 tier=quick kind=proof fn="get_rook_rays,get_bishop_rays" desc="rook rays = rank+file minus the square; bishop rays = both diagonals minus the square, for all 64 squares, checked pointwise against |dr|,|df| and against the closed forms"
+// @ob id=O16.3 props=C16 also=C03 tier=quick kind=proof fn="get_rook_rays,get_bishop_rays" desc="rook rays = rank+file minus the square; bishop rays = both diagonals minus the square, for all 64 squares, checked pointwise against |dr|,|df| and against the closed forms"
 #[kani::proof]
 fn c16_rays() {
     let (s, t) = (any_sq_u8(), any_sq_u8());
@@ -37,7 +37,7 @@ fn c16_rays() {
     assert!(br == sp::s_bishop_rays(s));
 }
 
-// @ob id=O16.3s props=C16,C02 tier=quick kind=proof fn="get_rook_rays,get_bishop_rays" desc="size bound used by the havoc abstraction of the rays: no square has more than 14 rook-ray or 13 bishop-ray squares"
+// @ob id=O16.3s props=C16 also=C02 tier=quick kind=proof fn="get_rook_rays,get_bishop_rays" desc="size bound used by the havoc abstraction of the rays: no square has more than 14 rook-ray or 13 bishop-ray squares"
 #[kani::proof]
 fn c16_rays_size() {
     let s = any_sq_u8();
@@ -45,7 +45,7 @@ fn c16_rays_size() {
     assert!(get_bishop_rays(Square::new(s)).popcnt() <= 13);
 }
 
-// @ob id=O16.4 props=C16,C01,C03 tier=quick kind=proof fn="get_king_moves,get_knight_moves" desc="king set = the up to 8 neighbours; knight set = the (1,2)/(2,1) leaps, for all 64 squares, pointwise by coordinate differences and equal to the shift-pattern closed forms"
+// @ob id=O16.4 props=C16 also=C01,C03 tier=quick kind=proof fn="get_king_moves,get_knight_moves" desc="king set = the up to 8 neighbours; knight set = the (1,2)/(2,1) leaps, for all 64 squares, pointwise by coordinate differences and equal to the shift-pattern closed forms"
 #[kani::proof]
 fn c16_king_knight() {
     let (s, t) = (any_sq_u8(), any_sq_u8());
@@ -59,7 +59,7 @@ fn c16_king_knight() {
     assert!(n == sp::s_knight(s));
 }
 
-// @ob id=O16.5 props=C16,C17,C01,C03 tier=quick kind=proof fn="get_pawn_attacks" desc="pawn attack set = the one or two squares diagonally forward for the colour, intersected with the victims argument; all squares, colours and victim sets"
+// @ob id=O16.5 props=C16,C17 also=C01,C03 tier=quick kind=proof fn="get_pawn_attacks" desc="pawn attack set = the one or two squares diagonally forward for the colour, intersected with the victims argument; all squares, colours and victim sets"
 #[kani::proof]
 fn c16_pawn_attacks() {
     let (s, t) = (any_sq_u8(), any_sq_u8());
@@ -72,7 +72,7 @@ fn c16_pawn_attacks() {
     assert!(r == sp::s_pawn_att(s, c) & bl);
 }
 
-// @ob id=O16.6 props=C16,C17,C01 tier=quick kind=proof fn="get_pawn_quiets,get_pawn_moves" desc="quiet pushes: one step iff the square ahead is empty; two steps only from the colour's starting rank and only through two empty squares; get_pawn_moves = attacks on occupied squares + quiets; all squares, colours, occupancies"
+// @ob id=O16.6 props=C16,C17 also=C01 tier=quick kind=proof fn="get_pawn_quiets,get_pawn_moves" desc="quiet pushes: one step iff the square ahead is empty; two steps only from the colour's starting rank and only through two empty squares; get_pawn_moves = attacks on occupied squares + quiets; all squares, colours, occupancies"
 #[kani::proof]
 fn c16_pawn_quiets_moves() {
     let s = any_sq_u8();
@@ -116,7 +116,7 @@ fn c16_ranks_files() {
     assert!(e == sp::s_edges());
 }
 
-// @ob id=O16.8 props=C16,C17,C02,C01 tier=quick kind=proof fn="get_castle_moves,get_pawn_source_double_moves,get_pawn_dest_double_moves,KINGSIDE_CASTLE_SQUARES,QUEENSIDE_CASTLE_SQUARES" desc="castle move squares = {c1,e1,g1,c8,e8,g8}; double-move sources = ranks 2,7; destinations = ranks 4,5; squares that must be empty for castling = f,g (king side) and b,c,d (queen side) on the colour's back rank"
+// @ob id=O16.8 props=C16,C17 also=C02,C01 tier=quick kind=proof fn="get_castle_moves,get_pawn_source_double_moves,get_pawn_dest_double_moves,KINGSIDE_CASTLE_SQUARES,QUEENSIDE_CASTLE_SQUARES" desc="castle move squares = {c1,e1,g1,c8,e8,g8}; double-move sources = ranks 2,7; destinations = ranks 4,5; squares that must be empty for castling = f,g (king side) and b,c,d (queen side) on the colour's back rank"
 #[kani::proof]
 fn c16_constants() {
     assert!(get_castle_moves().0 == (1u64 << 2) | (1 << 4) | (1 << 6) | (1 << 58) | (1 << 60) | (1 << 62));
